@@ -43,6 +43,10 @@ def parseKind : String → Option SKind
   | "tcp" => some .sock
   | "unix" => some .sock
   | "udp" => some .dgram
+  -- session 3 (seed C07-5b): a UDP socket whose multishot stream is `recv_from_multi` (io_uring multishot
+  -- recvmsg, `RecvMsgMultiImpl`): same pool calls as `recv_multi` (push_multishot / BufferGuard / pop_multishot /
+  -- take); the harness only sends datagrams that fit behind the recvmsg header, so no truncation differs
+  | "udpf" => some .dgram
   | "file" => some .file
   | _ => none
 
@@ -96,6 +100,10 @@ def parseEv (w : World) (ws : List String) : Option Ev :=
   | ["take", id] => id.toNat?.map .take
   | ["reset", id] => id.toNat?.map .reset
   | ["release"] => some .release
+  -- session 3 (seed C07-5a): the Proactor is dropped WITHOUT reaping the cancellations first; the ops the
+  -- driver still owns drop their buffers after `BufferPoolRoot::release`.  Same abstract event: every buffer
+  -- of an op ends up deallocated (`Pool.release_after_late_drop` shows the two orders free the same ids)
+  | ["arelease"] => some .release
   | ["wcancel", i, k] =>
     match i.toNat?, k.toNat? with
     | some i, some k => some (.wcancel i k)
